@@ -336,6 +336,11 @@ class RealEngine(Engine):
                 # x * Inf = Inf
                 s = _signbit(x) != _signbit(y)
                 return Float(s=s, isinf=True, ctx=REAL)
+        elif _is_zero(x) or _is_zero(y):
+            # 0 * y = 0; the separate case keeps the sign of a zero operand
+            # (a `Fraction` product cannot carry a negative zero)
+            s = _signbit(x) != _signbit(y)
+            return Float(s=s, c=0, ctx=REAL)
         else:
             # both are finite
             match x, y:
